@@ -1,5 +1,6 @@
 /- Line-protocol driver: one op per line on stdin, one answer per line on stdout. -/
 import Driver.Core
+import Driver.Sec
 open Drv
 
 structure St where
@@ -11,6 +12,7 @@ def step (s : St) (line : String) : St × String :=
   | "ORD" :: args => (s, stepOrd args)
   | "SET" :: args => let (c, o) := stepSet s.core args; ({ s with core := c }, o)
   | "KNN" :: args => let (c, o) := stepKnn s.core args; ({ s with core := c }, o)
+  | "SEC" :: args => (s, stepSec args)
   | _ => (s, "bad-op")
 
 partial def loop (h : IO.FS.Stream) (out : IO.FS.Stream) (s : St) : IO Unit := do
